@@ -417,7 +417,11 @@ func (c *evalCtx) ident(name string) Term {
 	if g, ok := w.P.Spec.Ghosts[name]; ok {
 		h := "G_ghost." + name
 		w.heapSorts[h] = g
-		return Term{w.heapSym(c.st, h), &Sort{Name: g, Kind: KOther}}
+		gs := &Sort{Name: g, Kind: KOther}
+		if !strings.HasPrefix(g, "(") {
+			gs = c.specSort(g) // scalar ghosts (Int, String, Bool) behave like values of that sort
+		}
+		return Term{w.heapSym(c.st, h), gs}
 	}
 	switch name {
 	case "true":
@@ -1026,6 +1030,17 @@ func (c *evalCtx) call(x *ECall) Term {
 			c.fail("unknown type %q", st.V)
 		}
 		return Term{fmt.Sprintf("(i-val %s)", a.S), w.sortOf(gt)}
+	case "hasPrefix", "hasSuffix":
+		// hasPrefix(s, p), hasSuffix(s, p) on strings
+		a, b := c.eval(x.Args[0]), c.eval(x.Args[1])
+		if a.Sort.Kind != KString || b.Sort.Kind != KString {
+			c.fail("%s(string, string)", x.Fn)
+		}
+		op := "str.prefixof"
+		if x.Fn == "hasSuffix" {
+			op = "str.suffixof"
+		}
+		return Term{fmt.Sprintf("(%s %s %s)", op, b.S, a.S), sortBool}
 	case "real":
 		a := c.concrete(c.eval(x.Args[0]))
 		if a.Sort.Kind == KReal {
